@@ -300,6 +300,40 @@ func (c *Ctx) walletBodyLiterals() {
 		// the conversion loop may sit in the builder or in an unexported helper the builders share
 		for _, g := range c.helperClosure(f, 2, func(h *ssa.Function) bool { return plainHelper(h) == nil }) {
 			lits = append(lits, literalFields(g, "W5SendMessageAction")...)
+			// elements of a slice made to size and filled in place: actions[i].Msg = ..., actions[i].Mode = ...
+			type elemKey struct{ base, idx ssa.Value }
+			byElem := map[elemKey]map[string][]ssa.Value{}
+			allInstrs(g, func(_ *ssa.BasicBlock, in ssa.Instruction) {
+				st, ok := in.(*ssa.Store)
+				if !ok {
+					return
+				}
+				fa, ok := st.Addr.(*ssa.FieldAddr)
+				if !ok {
+					return
+				}
+				ia, ok := fa.X.(*ssa.IndexAddr)
+				if !ok {
+					return
+				}
+				tn, fn, ok := fieldOf(fa)
+				if !ok || !strings.HasSuffix(tn, "W5SendMessageAction") {
+					return
+				}
+				// the element: the same slice variable at the same index value (each statement re-loads the variable)
+				base := ia.X
+				if ld, ok := base.(*ssa.UnOp); ok && ld.Op == token.MUL {
+					base = ld.X
+				}
+				k := elemKey{base, ia.Index}
+				if byElem[k] == nil {
+					byElem[k] = map[string][]ssa.Value{}
+				}
+				byElem[k][fn] = append(byElem[k][fn], st.Val)
+			})
+			for _, m := range byElem {
+				lits = append(lits, m)
+			}
 		}
 		for _, m := range lits {
 			msg := vals2paths(m["Msg"])
